@@ -79,68 +79,94 @@ class BuilderRig:
             self.fn[name] = c[0]
         self.solver_time = 0.0
         self.queries = 0
+        # the real driver of the builder: LuaTreeBuilder::build (Chunk wrapper, event -> builder call mapping, parent chains)
+        self.tb_fns = mc.fns("emmylua_parser", r"lua_tree_builder::<impl[^>]*>::(build|token|start_node|finish_node)\(|lua_green_builder::<impl[^>]*>::|marker::<impl[^>]*>::none\(")
+        self.tb_fields = srcinfo.struct_fields(PS + "/syntax/tree/lua_tree_builder.rs", "LuaTreeBuilder")
+        self.mark = srcinfo.enum_variants(PS + "/parser/marker.rs", "MarkEvent")
+        self.tok = srcinfo.enum_variants(PS + "/kind/lua_token_kind.rs", "LuaTokenKind")
+        c = [f for f in self.tb_fns if re.search(r"lua_tree_builder::<impl[^>]*>::build$", f.name)]
+        if len(c) != 1:
+            raise RuntimeError("LuaTreeBuilder::build: %d candidates" % len(c))
+        self.fn["build"] = c[0]
 
     def executor(self):
-        ex = symex.Executor(self.fns, enums={"LuaGreenElement": self.elem}, max_visits=24, max_paths=20000)
+        ex = symex.Executor(self.tb_fns, enums={"LuaGreenElement": self.elem, "MarkEvent": self.mark, "LuaSyntaxKind": self.syn}, max_visits=40, max_paths=40000)
         vecmodel.install(ex)
-        ex.inline = [r"LuaGreenNodeBuilder::<'_>::(is_trivia|is_trivia_whitespace)$"]
+        ex.inline = [r"LuaGreenNodeBuilder::<'_>::(is_trivia|is_trivia_whitespace|token|start_node|finish_node)$",
+                     r"LuaTreeBuilder::<'_>::(token|start_node|finish_node)$", r"MarkEvent::none$"]
         return ex
 
-    def run_pattern(self, pat):
-        """returns (final_states, problems, n_paths)"""
+    def run_pattern(self, pat, nontrivia_after_leading_empty=False, root_block=True):
+        """drive LuaTreeBuilder::build over the event vector of `pat`; returns (final_states, problems, n_paths, n_tokens, (ex, cell))"""
         ex = self.executor()
         st0 = symex.State()
-        names = list(self.fields)
-        vals = []
-        for f in names:
-            vals.append(VecV([]) if f in ("parents", "children", "elements") else Opaque("GreenNodeBuilder", ("rowan",)))
-        cell = st0.new_cell(Agg("LuaGreenNodeBuilder", None, vals, names))
-        bref = Ref(("heap", cell), (), True)
-        chunk = BV(z3.BitVecVal(self.syn.index("Chunk"), 16))
-        seq = [("S", chunk)]
+        events = []
         t = 0
+        seen_token = False
+        leading_empty = False
         for i, o in enumerate(pat):
             if o == "S":
-                seq.append(("S", BV(z3.BitVec("nk%d" % i, 16))))
+                k = z3.BitVec("nk%d" % i, 16)
+                st0.pc.append(k != self.syn.index("None"))      # kind None marks a cancelled node: not a node start
+                if i == 0 and root_block:
+                    st0.pc.append(k == self.syn.index("Block"))  # parse_chunk opens the root Block before anything else
+                else:
+                    # grammar shape G1: a nested Block directly follows the keyword token that introduces it (do/then/else/function(..)/...),
+                    # it is never the first child of its parent and never preceded only by trivia
+                    blk = z3.Or(k == self.syn.index("Block"), k == self.syn.index("Chunk"))
+                    if i > 0 and pat[i - 1] == "T":
+                        prev = z3.BitVec("tk%d" % (i - 1), 16)
+                        st0.pc.append(z3.Implies(blk, z3.And([prev != self.tok.index(nm) for nm in ("TkWhitespace", "TkEndOfLine", "TkDocContinue")])))
+                    else:
+                        st0.pc.append(z3.Not(blk))
+                events.append(Agg("MarkEvent", "NodeStart", [BV(k), usize(0)], ["kind", "parent"]))
             elif o == "T":
-                seq.append(("T", BV(z3.BitVec("tk%d" % i, 16)), t))
+                k = z3.BitVec("tk%d" % i, 16)
+                if leading_empty and nontrivia_after_leading_empty and not seen_token:
+                    for nm in ("TkWhitespace", "TkEndOfLine", "TkDocContinue"):
+                        st0.pc.append(k != self.tok.index(nm))
+                seen_token = True
+                rng = Agg("SourceRange", None, [usize(t), usize(1)], ["start_offset", "length"])
+                events.append(Agg("MarkEvent", "EatToken", [BV(k), rng], ["kind", "range"]))
                 t += 1
             else:
-                seq.append(("F",))
-        seq.append(("F",))
-        states = [st0]
+                if not seen_token:
+                    leading_empty = True
+                events.append(Agg("MarkEvent", "NodeEnd", []))
+        gb_vals = [VecV([]) if f in ("parents", "children", "elements") else Opaque("GreenNodeBuilder", ("rowan",)) for f in self.fields]
+        gb = Agg("LuaGreenNodeBuilder", None, gb_vals, list(self.fields))
+        tb_vals = []
+        for f in self.tb_fields:
+            if f == "events":
+                tb_vals.append(VecV(events))
+            elif f == "green_builder":
+                tb_vals.append(gb)
+            else:
+                tb_vals.append(Opaque(f, (f,)))
+        cell = st0.new_cell(Agg("LuaTreeBuilder", None, tb_vals, list(self.tb_fields)))
+        tref = Ref(("heap", cell), (), True)
         problems = []
+        states = []
         npaths = 0
-        for op in seq:
-            nxt = []
-            for st in states:
-                s2 = st.fork()
-                if op[0] == "S":
-                    paths = ex.run(self.fn["start_node"], [bref, op[1]], s2)
-                elif op[0] == "T":
-                    rng = Agg("SourceRange", None, [usize(op[2]), usize(1)], ["start_offset", "length"])
-                    paths = ex.run(self.fn["token"], [bref, op[1], rng], s2)
-                else:
-                    paths = ex.run(self.fn["finish_node"], [bref], s2)
-                for p in paths:
-                    npaths += 1
-                    for (what, cond, where, npc) in p.state.obligations:
-                        if z3.is_false(z3.simplify(cond)):
-                            problems.append("%s fails in %s" % (what, where.split("::")[-1]))
-                    p.state.obligations = []
-                    if p.kind == "return":
-                        nxt.append(p.state)
-                    elif p.kind == "cut":
-                        problems.append("loop bound reached in %s (non-termination?)" % p.info[-60:])
-                    else:
-                        problems.append("%s: %s" % (p.kind, p.info[:100]))
-            states = nxt
+        for p in ex.run(self.fn["build"], [tref], st0):
+            npaths += 1
+            for (what, cond, where, npc) in p.state.obligations:
+                if z3.is_false(z3.simplify(cond)):
+                    problems.append("%s fails in %s" % (what, where.split("::")[-1]))
+            p.state.obligations = []
+            if p.kind == "return":
+                states.append(p.state)
+            elif p.kind == "cut":
+                problems.append("loop bound reached in %s (non-termination?)" % p.info[-60:])
+            else:
+                problems.append("%s: %s" % (p.kind, p.info[:100]))
         self.solver_time += ex.solver_time
         self.queries += ex.queries
         return states, problems, npaths, t, (ex, cell)
 
     def leaves(self, ex, st, cell):
-        b = st.heap[cell]
+        tb = st.heap[cell]
+        b = dict(zip(tb.names, tb.fields))["green_builder"]
         f = dict(zip(b.names, b.fields))
         children, elements = f["children"], f["elements"]
         out = []
@@ -168,20 +194,27 @@ def builder_obligations(out, mc, want_lossless, max_ops):
     res = []
     groups = [("balanced", True)] if want_lossless else [("balanced", True), ("unbalanced", False)]
     for gname, bal in groups:
-        pats = patterns(max_ops, bal)
+        # every real event stream is  NodeStart(Block) <inner> NodeEnd : parse_chunk marks the root Block first and completes it last
+        inner = [""] + patterns(max_ops, True) + ([] if bal else patterns(max_ops, False))
+        pats = ["S" + p + "F" for p in inner] if bal else ["S" + p + "F" for p in patterns(max_ops, False)] + patterns(max_ops, False)
         if want_lossless:
-            # pre-state invariant supplied by the grammar (outside this check): a node is never finished before the
-            # first token of the file has been pushed (parse_chunk calls init(), which emits leading trivia, right after
-            # opening the root Block, and every other node eats a token before it completes at file start)
-            pats = [p for p in pats if "F" not in p or "T" in p[:p.index("F")]]
+            # grammar shape G2: before the first token of the file has been eaten, error recovery closes at most ONE open node
+            # (the statement node that met the unexpected token).  The builder ignores a NodeEnd while it holds no children, so
+            # two such closes would leave two stale parents; streams with that shape are outside the claim.
+            def early_closes(p):
+                i = p.find("T")
+                return (p if i < 0 else p[:i]).count("F")
+            pats = [p for p in pats if early_closes(p[1:]) <= 1 or "T" not in p]
         if want_lossless:
-            text = ("for every balanced sequence of <= %d start_node/token/finish_node operations inside the Chunk wrapper and ALL node and token kinds, the element tree "
-                    "handed to rowan has one root and its depth-first leaves are exactly the pushed tokens in push order" % max_ops)
+            text = ("for every balanced sequence of <= %d NodeStart/EatToken/NodeEnd events run through the real LuaTreeBuilder::build and ALL node and token kinds, the element tree "
+                    "handed to rowan has one root and its depth-first leaves are exactly the eaten tokens in order (where a node is closed before any token was eaten — "
+                    "recovery does that — the first token after it is not whitespace/EOL, as it is the unexpected token itself)" % max_ops)
             oid = "builder/keeps_every_token_in_order"
         else:
-            text = ("for every %s sequence of <= %d builder operations and ALL kinds: no index / drain / insert out of range, no loop runs past its bound" % (gname, max_ops))
+            text = ("for every %s sequence of <= %d events run through LuaTreeBuilder::build and ALL kinds: no index / drain / insert out of range, no loop runs past its bound, "
+                    "`unreachable!()` not reached" % (gname, max_ops))
             oid = "builder/no_panic_%s" % gname
-        ob = out.add(Obligation(oid, "M", text, {"functions": "LuaGreenNodeBuilder::{token,start_node,finish_node,is_trivia,is_trivia_whitespace}",
+        ob = out.add(Obligation(oid, "M", text, {"functions": "LuaTreeBuilder::build + LuaGreenNodeBuilder::{token,start_node,finish_node,is_trivia,is_trivia_whitespace}",
                                                 "patterns": len(pats), "ops": "<= %d" % max_ops, "kinds": "symbolic u16 per node / token"},
                                 [f.name for f in rig.fn.values()]))
         fails = []
@@ -190,7 +223,7 @@ def builder_obligations(out, mc, want_lossless, max_ops):
         sample = None
         for pat in pats:
             try:
-                states, problems, n, ntok, (ex, cell) = rig.run_pattern(pat)
+                states, problems, n, ntok, (ex, cell) = rig.run_pattern(pat, nontrivia_after_leading_empty=want_lossless, root_block=pat.startswith("S") and pat.endswith("F"))
             except symex.Unsupported as e:
                 fails.append("pattern %s: encoding gap: %s" % (pat, str(e)[:120]))
                 continue
@@ -418,3 +451,158 @@ def witness_kinds(st):
         m = s.model()
         return {d.name(): m[d].as_long() for d in m.decls() if d.name().startswith("kind")}
     return {}
+
+
+# ---------------------------------------------------------------------------------------------
+# M: Marker / MarkerEventContainer — the open-node counter the error recovery relies on
+
+class MarkerRig:
+    def __init__(self, mc):
+        want = (r"^fn parser::marker::MarkerEventContainer::(mark|push_node_end)\(|^fn parser::marker::<impl[^>]*>::(new|complete|undo|precede)\(|"
+                r"^fn lua_parser::<impl at crates/emmylua_parser/src/parser/lua_parser.rs:3\d:[^>]*>::(get_mark_level|incr_mark_level|decr_mark_level|get_events)\(")
+        self.fns = mc.fns("emmylua_parser", want)
+        self.fields = srcinfo.struct_fields(PS + "/parser/lua_parser.rs", "LuaParser")
+        self.syn = srcinfo.enum_variants(PS + "/kind/lua_syntax_kind.rs", "LuaSyntaxKind")
+        self.mark = srcinfo.enum_variants(PS + "/parser/marker.rs", "MarkEvent")
+
+        def one(rx):
+            c = [f for f in self.fns if re.search(rx, f.name)]
+            if len(c) != 1:
+                raise RuntimeError("marker fn %s: %d candidates" % (rx, len(c)))
+            return c[0]
+        self.f_mark = one(r"MarkerEventContainer::mark$")
+        self.f_end = one(r"MarkerEventContainer::push_node_end$")
+        self.f_complete = one(r"marker::<impl[^>]*>::complete$")
+        self.f_undo = one(r"marker::<impl[^>]*>::undo$")
+        self.f_precede = one(r"marker::<impl[^>]*>::precede$")
+        self.impl = {n: one(r"lua_parser::<impl[^>]*>::%s$" % n) for n in ("get_mark_level", "incr_mark_level", "decr_mark_level", "get_events")}
+
+    def executor(self):
+        ex = symex.Executor(self.fns, enums={"MarkEvent": self.mark, "LuaSyntaxKind": self.syn}, max_visits=8)
+        vecmodel.install(ex)
+        for n, f in self.impl.items():
+            ex.redirect.append((r"as parser::marker::MarkerEventContainer>::%s$|as MarkerEventContainer>::%s$" % (n, n), f))
+        ex.redirect.append((r"as parser::marker::MarkerEventContainer>::push_node_end$|as MarkerEventContainer>::push_node_end$", self.f_end))
+        ex.redirect.append((r"as parser::marker::MarkerEventContainer>::mark$|as MarkerEventContainer>::mark$", self.f_mark))
+        ex.inline = [r"^parser::marker::Marker::new$|^Marker::new$"]
+        return ex
+
+    def run(self, ops):
+        """ops: string over M (mark), T (token event), C (complete top open marker), U (undo top open marker),
+        P (precede the most recently completed marker), E (recovery: push_node_end).  Returns problems list."""
+        ex = self.executor()
+        st = symex.State()
+        vals = []
+        for f in self.fields:
+            if f == "events":
+                vals.append(VecV([]))
+            elif f == "mark_level":
+                vals.append(usize(0))
+            else:
+                vals.append(Opaque(f, (f,)))
+        cell = st.new_cell(Agg("LuaParser", None, vals, list(self.fields)))
+        pref = Ref(("heap", cell), (), True)
+        states = [(st, [], None)]      # (state, open marker stack, last completed marker)
+        problems = []
+        npaths = 0
+        for i, op in enumerate(ops):
+            nxt = []
+            for st, open_, last in states:
+                s2 = st.fork()
+                if op == "M":
+                    kind = BV(z3.BitVec("mk%d" % i, 16))
+                    s2.pc.append(kind.term != self.syn.index("None"))
+                    paths = ex.run(self.f_mark, [pref, kind], s2)
+                    for p in paths:
+                        npaths += 1
+                        if p.kind == "return":
+                            nxt.append((p.state, open_ + [p.ret], last))
+                        else:
+                            problems.append("%s in mark" % p.kind)
+                elif op == "T":
+                    prs = s2.heap[cell]
+                    f = dict(zip(prs.names, prs.fields))
+                    ev = Agg("MarkEvent", "EatToken", [BV(z3.BitVec("ek%d" % i, 16)), Agg("SourceRange", None, [usize(i), usize(1)])], ["kind", "range"])
+                    newf = [VecV(f["events"].items + [ev]) if n == "events" else v for n, v in zip(prs.names, prs.fields)]
+                    s2.heap[cell] = Agg("LuaParser", None, newf, list(prs.names))
+                    nxt.append((s2, open_, last))
+                elif op in ("C", "U"):
+                    if not open_:
+                        nxt.append((s2, open_, last))
+                        continue
+                    m = open_[-1]
+                    paths = ex.run(self.f_complete if op == "C" else self.f_undo, [m, pref], s2)
+                    for p in paths:
+                        npaths += 1
+                        if p.kind == "return":
+                            nxt.append((p.state, open_[:-1], p.ret))
+                        else:
+                            problems.append("%s in %s: %s" % (p.kind, "complete" if op == "C" else "undo", p.info[:80]))
+                elif op == "P":
+                    if last is None:
+                        nxt.append((s2, open_, last))
+                        continue
+                    cref = Ref(("heap", s2.new_cell(last)), (), False)
+                    kind = BV(z3.BitVec("pk%d" % i, 16))
+                    s2.pc.append(kind.term != self.syn.index("None"))
+                    paths = ex.run(self.f_precede, [cref, pref, kind], s2)
+                    for p in paths:
+                        npaths += 1
+                        if p.kind == "return":
+                            nxt.append((p.state, open_ + [p.ret], None))
+                        else:
+                            problems.append("%s in precede: %s" % (p.kind, p.info[:80]))
+                # the invariant the recovery code relies on, after every operation
+            for st, open_, last in nxt:
+                prs = st.heap[cell]
+                f = dict(zip(prs.names, prs.fields))
+                level = vecmodel.conc(f["mark_level"])
+                starts = ends = 0
+                for e in f["events"].items:
+                    if isinstance(e, Agg) and e.variant == "NodeStart":
+                        k = e.fields[0]
+                        is_none = (isinstance(k, Agg) and k.variant == "None") or (isinstance(k, BV) and vecmodel.conc(k) == self.syn.index("None"))
+                        if not is_none:
+                            starts += 1
+                    elif isinstance(e, Agg) and e.variant == "NodeEnd":
+                        ends += 1
+                if level is None or level != starts - ends:
+                    problems.append("after %s: mark_level = %s but %d node(s) are open (%d live NodeStart, %d NodeEnd) — recovery would push %s surplus NodeEnd"
+                                    % (ops[:i + 1], level, starts - ends, starts, ends, (level - (starts - ends)) if level is not None else "?"))
+            states = nxt
+        return problems, npaths
+
+
+def marker_obligation(out, mc, max_ops):
+    rig = MarkerRig(mc)
+    seqs = []
+    for n in range(1, max_ops + 1):
+        for ops in itertools.product("MTCUP", repeat=n):
+            s = "".join(ops)
+            if s[0] != "M":
+                continue
+            seqs.append(s)
+    ob = out.add(Obligation("marker/mark_level_counts_open_nodes", "M",
+                            "after every sequence of <= %d marker operations (mark, token, complete, undo, precede; all kinds symbolic) the parser's mark_level equals the number of "
+                            "nodes that are open in the event list (live NodeStart minus NodeEnd) — the number the statement/tag error recovery closes" % max_ops,
+                            {"functions": "MarkerEventContainer::{mark,push_node_end}, Marker::{complete,undo}, CompleteMarker::precede, LuaParser's MarkerEventContainer impl",
+                             "sequences": len(seqs)}, [f.name for f in rig.fns]))
+    fails = []
+    npaths = 0
+    t0 = time.time()
+    for s in seqs:
+        try:
+            pr, n = rig.run(s)
+        except symex.Unsupported as e:
+            fails.append("sequence %s: encoding gap: %s" % (s, str(e)[:140]))
+            continue
+        npaths += n
+        fails += pr
+    ob.witness = npaths > 0
+    ob.extra = {"sequences": len(seqs), "paths": npaths, "seconds": round(time.time() - t0, 1)}
+    if fails:
+        ob.status = "pending"
+        ob.detail = "; ".join(sorted(set(fails), key=lambda x: (len(x), x))[:4])[:800]
+        return [(ob, fails, None)]
+    ob.status = "pass"
+    return []
